@@ -34,6 +34,7 @@ PropOf(e) ==
   CASE e.op \in {"chat", "invitenew", "invite", "reject", "join", "leave", "subject"} -> "C12"
     [] e.op \in {"connect", "kick", "banadd", "wait", "expire", "restart"} -> "C17"
     [] e.op = "login" /\ ~PwMatches(e) -> "C04"
+    [] e.op = "rawfail" -> "C04"
     [] OTHER -> "C13"
 
 Report(kind, prop, e, extra) ==
@@ -67,11 +68,15 @@ StepEv ==
                    okDeliv == IF e.op = "kick" THEN SameSet(out', e.deliv) ELSE SameBag(out', e.deliv)
                    okBan == (e.op = "kick" /\ bans' # bans) => ((IF conn[e.target].addr \in DOMAIN bans' THEN bans'[conn[e.target].addr] ELSE "none") = e.bancls)
                    okClosed == SeqToSet(e.closed) = {c \in Conns : conn[c].ph # "closed" /\ conn'[c].ph = "closed"}
-                   bad == ~okDeliv \/ dupId \/ ~okClosed \/ ~okBan
-               IN /\ (bad /\ OnceOK(IF dupId THEN "C13" ELSE p, e) =>
+                   okState == e.op = "rawfail" => ~e.stateChanged
+                   okChurn == e.op = "churn" => Len(e.dup) = 0
+                   unsettled == "unsettled" \in DOMAIN e
+                   bad == ~okDeliv \/ dupId \/ ~okClosed \/ ~okBan \/ ~okState \/ ~okChurn
+               IN /\ (unsettled /\ ~dupId => Report("DRIFT", p, e, "a connection did not answer its keep-alive"))
+                  /\ (bad /\ OnceOK(IF dupId THEN "C13" ELSE p, e) =>
                         Report("VIOL", IF dupId THEN "C13" ELSE p, e,
                                [expected |-> out', dupId |-> dupId, okDeliv |-> okDeliv, okClosed |-> okClosed,
-                                okBan |-> okBan,
+                                okBan |-> okBan, okState |-> okState, okChurn |-> okChurn,
                                 expClosed |-> {c \in Conns : conn[c].ph # "closed" /\ conn'[c].ph = "closed"}]))
                   /\ seen' = IF bad THEN seen \cup {<<e.run, IF dupId THEN "C13" ELSE p>>} ELSE seen
 
